@@ -133,3 +133,16 @@ package txnlock
 //@   prop C05 C04
 //@   pure
 //@   ensures result == (s.ttl == 0 && s.commitTS == 0 && (s.action == kvrpcpb.Action_NoAction || s.action == kvrpcpb.Action_LockNotExistRollback || s.action == kvrpcpb.Action_TTLExpireRollback))
+
+// Recovery of an async-commit transaction whose status is not determined yet: the outcome used to resolve its locks is the
+// commit timestamp accumulated over the secondaries (zero = roll back) - the very value checkAllSecondaries reported -, the
+// primary is resolved along with the secondaries, and the status handed back carries that timestamp. A determined status
+// is used as it is.
+//@ func (*LockResolver) resolveAsyncCommitLock
+//@   prop C04
+//@   may-panic
+//@   requires bo != nil && status.primaryLock != nil
+//@   opaque-callee IsStatusDetermined StatusCacheable saveResolved tryAsyncResolve resolveAsyncResolveData NewBackoffer Inc
+//@   at call(StatusCacheable) assert accumulated: status.commitTS == resolveData.commitTs
+//@   at call(saveResolved) assert cached: arg0 == l.TxnID && arg1.commitTS == resolveData.commitTs
+//@   at call(resolveAsyncResolveData) assert outcome: arg_l == l && arg_status.commitTS == status.commitTS
